@@ -16,7 +16,8 @@ package main
 // Rewrites that cannot change the value are recognised (the Lean names stay `isClusterAvilable` /
 // `removeKeepsQuorum`, arguments are positional): another name for the closure (it is found by its
 // shape `func(int, int) bool` if the configured name is absent), other names for the locals `cp` /
-// `healthy`, the guard written `if ok := f(a, b); !ok { return Err }` or `if f(a, b) { return nil }; return Err`,
+// `healthy`, the guard written `if ok := f(a, b); !ok { return Err }` or inverted `if f(a, b) { return nil }; [logging;] return Err`
+// (inside a tagged or a tagless switch alike: the guard is looked for in every block and case clause),
 // the sentinel wrapped (`fmt.Errorf("%w", Err)`), further value-less call statements (logging, metrics)
 // in the closure — but never one whose call chain names Panic/Fatal/Exit or a bare panic().
 
@@ -249,10 +250,22 @@ func cmdRaftQuorum(args []string) error {
 				if call == nil {
 					shapeErr = fmt.Errorf("raftquorum: guard of %s does not test %s with two arguments", *sentinel, goName)
 				}
-			case returnsNil(last) && i+1 < len(blk.List) && returnsSentinel(blk.List[i+1], *sentinel) && is.Init == nil && is.Else == nil && isCall(is.Cond) != nil:
-				nguards++
-				gpos = is.Pos()
-				call = isCall(is.Cond)
+			case returnsNil(last) && is.Init == nil && is.Else == nil && isCall(is.Cond) != nil:
+				// `if f(a, b) { …; return nil }` followed — after value-less statements (logging) only — by `return Err`:
+				// the inverted form of `if !f(a, b) { …; return Err }; return nil`
+				j := i + 1
+				for j < len(blk.List) {
+					es, ok := blk.List[j].(*ast.ExprStmt)
+					if !ok || !valueless(es.X) {
+						break
+					}
+					j++
+				}
+				if j < len(blk.List) && returnsSentinel(blk.List[j], *sentinel) {
+					nguards++
+					gpos = is.Pos()
+					call = isCall(is.Cond)
+				}
 			}
 		}
 		return true
